@@ -443,6 +443,11 @@ func (cl *cluster) apply(ev string) {
 		if cl.task.panicked != "" {
 			cl.violate("panic", "panic:task:"+cl.task.kind, "the replica-side task panicked: "+cl.task.panicked)
 		}
+	case "XferFail":
+		// the next snapshot-file transfer of the running rebuild dies half way
+		cl.failXfer = true
+		cl.nFaults++
+		cl.observe("XferFail armed")
 	case "Kill":
 		// the joining replica's process dies at the gate its task is parked at and is started again
 		n := cl.task.node
